@@ -28,7 +28,10 @@ def worker_setup(arg):
 
 def answers(z, u):
     loc = tzwalk.utc_aware(u).astimezone(z)
-    return (loc.utcoffset().total_seconds(), loc.tzname(), loc.dst().total_seconds() if loc.dst() is not None else None)
+    off = loc.utcoffset()
+    if off is None:
+        return ('naive-result', loc.tzname(), None)           # compared like any other wrong answer
+    return (off.total_seconds(), loc.tzname(), loc.dst().total_seconds() if loc.dst() is not None else None)
 
 
 def eval_zone(case):
@@ -66,7 +69,7 @@ def eval_zone(case):
             n += 1
             off, isdst, abbr = zone.at(ref_u)
             loc = (tzwalk.utc_aware(t) + D.timedelta(microseconds=us)).astimezone(z)
-            got = (loc.utcoffset().total_seconds(), loc.tzname())
+            got = (loc.utcoffset().total_seconds() if loc.utcoffset() is not None else 'naive-result', loc.tzname())
             if got != (off, abbr) and len(viols) < 3:
                 viols.append({'kind': 'wrong-offset-or-abbreviation', 'zone': label, 'utc': t, 'microseconds': us,
                               'got': got, 'expected': (off, abbr), 'where': 'in-range-subsecond'})
